@@ -359,6 +359,7 @@ def step (stream : String) (_ : Unit) (ws : List String) : Unit × String × Str
     if kind != "scen" && kind != "scenq" then
       match kind, rest with
       | "enum", idx :: rest => enumLine stream idx rest
+      | "enumf", idx :: rest => enumLine stream idx rest   -- same line, the harness kills a forked process instead of simulating the death
       | _, _ => ((), "bad-op", "-", "")
     else
     match parseToks rest with
